@@ -40,6 +40,8 @@ Wr(e) == CASE e = "pa" -> <<"a", "\n">>            \* print('a')
            [] e = "pab" -> <<"a", "\t", "b", "\n">> \* print('a', 'b', sep='\t')
            [] e = "w" -> <<"b">>                    \* sys.stdout.write('b')
            [] e = "sp" -> <<" ", " ", "\n">>        \* print('  ')
+           [] e = "pcr" -> <<"a", "\r">>            \* print('a', end='\r'): a progress line
+           [] e = "pcrb" -> <<"a", "\r", "b", "\n">> \* print('a\rb')
            [] e = "wsv" -> <<"c">>                  \* saved_out.write('c') where the module did `saved_out = sys.stdout` when it
                                                     \* was RUN: standard output as the student's program knows it
            [] e = "pnn" -> <<"\n", "\n">>           \* print('\n')
